@@ -228,7 +228,7 @@ func VerifC17Kill(h *verifh.H) {
 		h.Assert((res.LastError != "") == rejects, "the recorded outcome carries the error iff an entity was rejected :: lastError="+res.LastError+" rejects="+strconv.FormatBool(rejects))
 	}
 	for k := 0; k < 4; k++ {
-		if !h.FireTimer("rerun", 1500*time.Millisecond) {
+		if !h.FireTimer("rerun", 2500*time.Millisecond) {
 			break
 		}
 		runs++
